@@ -280,6 +280,11 @@ class CallGraph:
             for n in ('__call__', 'evaluate', 'select', 'cast'):
                 if n in c.methods:
                     roots.add(c.methods[n])
+            # a token method that takes the dynamic context runs in the dynamic phase, even
+            # when its name (keys, values, items, …) defeats by-name call resolution
+            for n, m in c.methods.items():
+                if n not in ('nud', 'led', '__init__') and 'context' in m.params():
+                    roots.add(m)
         return roots
 
     def parse_roots(self) -> set[FuncInfo]:
